@@ -9,18 +9,22 @@ ID = "C11"
 LEAN_MODULES = ["NdInterp.Props.C11", "NdInterp.Props.RatTie"]
 THEOREM_FILES = [("NdInterp/Props/C11.lean", "C11_")]
 RULE = ("get_lower_index at Q (exact) and f64 (index compared): axes n=2..40 (thorough ..2000) of kinds unit/uniform/geometric/"
-        "clustered/log/ulps-apart/mixed-magnitude; queries at every knot, neighbouring floats, midpoints, +-inf, +-MAX, +-0, outside; "
+        "clustered/log/ulps-apart/mixed-magnitude/even-grid-with-moved-interior, and i64 axes (unit/uniform/gappy/above 2^53); queries at every knot, neighbouring floats, midpoints, +-inf, +-MAX, +-0, outside; "
         "plus the constructed family: for every n<=N (quick 12, thorough 40), every guess position g and every rank r an axis on "
         "[0,n-1] whose O(1) guess is g and whose bracket is r ((n-1)^2 pairs per n, exhaustive). non-trivial = query strictly "
         "inside the range; distinct = distinct case line")
 PARTIAL = ["for f64 the arithmetic fact 'the O(1) guess lands inside the axis' (GuessOK) is proved in exact arithmetic only "
            "(C11_guess); for floats it is exercised by this run, C11_bracket then covers every guess",
-           "i32/i64 axes: covered by C11_bracket (any linear order, any guess); not run through the protocol"]
+           "i32 axes: covered by C11_bracket (any linear order, any guess); i64 is run through the protocol (model at Z64), i32 is not"]
 ASSUMPTIONS = ["axis length < 2^64 (usize)", "non-NaN f64 comparison is a linear order"]
 
 
 def case_q(xs, q, lay="c"):
     return {"line": f"Q lower {t_vec(xs, fq, lay)} {fq(q)}", "meta": {"xs": xs, "q": q}}
+
+
+def case_i(xs, q, lay="c"):
+    return {"line": f"I lower {t_vec(xs, gen.fi, lay)} {gen.fi(q)}", "meta": {"xs": xs, "q": q}}
 
 
 def case_f(xs, q, lay="c"):
@@ -40,6 +44,12 @@ def generate(rng, tier):
         xs = gen.axis_f(rng, n)
         for q in gen.queries_f(rng, xs, 14):
             cases.append(case_f(xs, q, rng.choice(gen.LAYS_1D)))
+    # i64 axes (integer division in the O(1) guess, integer casts): every kind incl. gaps and magnitudes above 2^53
+    for _ in range(reps):
+        n = rng.choice([2, 3, 4, 5, 7, 10, 17])
+        xs = gen.axis_i(rng, n)
+        for q in gen.queries_i(rng, xs, 10, ext=True):
+            cases.append(case_i(xs, q, rng.choice(gen.LAYS_1D)))
     if tier == "thorough":
         for n in (500, 2000):
             for kind in ("uniform", "geometric", "ulps", "log"):
